@@ -254,14 +254,14 @@ def inventory(facts):
                 cal = by_pat.get(c.get("cpat"))
                 if cal is not None and cal is not f and cal.get("body") is not None and cal.get("rect") == f.get("rect") and cal.get("ret") == "void" \
                         and len(cal.get("params", [])) == len(c.get("args", [])) and (c.get("obj") is None or strip(c["obj"]).get("k") == "This") \
-                        and not VERBS.match(cal.get("name") or "") and (cal.get("access", 2) != 0 or cal.get("rect") in struct_like(by_pat)):
+                        and (cal.get("access", 2) != 0 or cal.get("rect") in struct_like(by_pat)):
                     helper_pats.add(cal["pat"])
         walk(f["body"], hv)
     rows = {}
     for pat, fn0 in sorted(fns.items()):
         if not fn0.get("rect") or fn0.get("body") is None or fn0["pat"] in helper_pats:
             continue
-        fn = dict(fn0, body=inlined_body(fn0, by_pat, depth=3, keep=lambda nm: bool(VERBS.match(nm))))   # the operations themselves stay calls
+        fn = dict(fn0, body=inlined_body(fn0, by_pat, depth=3, mark=lambda nm: bool(VERBS.match(nm))))   # the operations themselves stay visible as calls
         env = flat_env(fn)
         calls = []
         walk(fn["body"], lambda x: calls.append(x) if x.get("k") == "Call" and x.get("cname") and VERBS.match(x["cname"]) and (x.get("crec") or "").startswith("datasketches::") else None)
